@@ -1204,6 +1204,16 @@ func (si *setInterp) withUpdates(mk ssa.Value, init *mapAbs, fr *sframe, at ssa.
 			if vp, ok := si.proj(u.Value, l); ok {
 				kp, _ := si.proj(u.Key, l)
 				src := si.source(l, vp, fr)
+				if src.known() && src.elem == "name" && (kp == "Num" && vp == "Name" || kp == "val.Num" && vp == "val.Name") {
+					// the element's name stored under the element's number: one name per number, names distinct because the
+					// numbers are (Name = table[Num], C16; tables injective, C12)
+					v2 := &coll{set: c.set, elem: "name", dupfree: true}
+					if vals == nil {
+						vals = v2
+					} else if vals.elem == "name" {
+						vals = &coll{set: sxU(vals.set, v2.set), elem: "name", dupfree: false}
+					}
+				}
 				if src.known() && src.elem == "sys" {
 					v2 := &coll{set: c.set, elem: "sys", uniqueNum: kp == "Num" && vp == "" || kp == "val.Num" && vp == "val", dupfree: true}
 					if vals == nil {
@@ -1288,7 +1298,6 @@ func (si *setInterp) frameOf(fn, root *ssa.Function, depth int) (*sframe, bool) 
 	}
 	return si.frame(parent, site, fn), true
 }
-
 
 // linearSearch recognises `func(list []string, x string) bool` (parameters in any order, also as a method) that returns
 // true exactly when some element of list equals x: one loop over all indices of the list, `if list[i] == x { return true }`,
